@@ -1,6 +1,6 @@
 (* C04 — each client request is forwarded to the backend at most once.
    Statements only. *)
-From Coq Require Import ZArith List Bool Lia.
+From Coq Require Import String ZArith List Bool Lia.
 From IP Require Import Gen.SrcFacts_Agent Lib.Lru Proofs.LruProofs Server.ProxyCore Proofs.ProxyCoreProofs Agent.System Proofs.SystemProofs.
 Import ListNotations.
 
@@ -10,6 +10,12 @@ Definition K_now : nat := Z.to_nat requestCacheLimit.
 Theorem C04_cache_limit : (1000 <= requestCacheLimit)%Z.
 Proof. vm_compute; congruence. Qed.
 Print Assumptions C04_cache_limit.
+
+(* the set of previously seen IDs is the recency-ordered cache the model describes (Lib/Lru.v): created by lru.New with
+   the limit above, looked up with Get (which moves a re-listed ID to the front) and filled with Add, in this order *)
+Theorem C04_dedup_is_lru : dedupConstructor = ["lru.New(requestCacheLimit)"%string] /\ dedupMethods = ["Get"%string; "Add"%string].
+Proof. split; reflexivity. Qed.
+Print Assumptions C04_dedup_is_lru.
 
 (* the bounded LRU is exactly the K most recently listed distinct IDs *)
 Theorem C04_lru_is_recency_prefix : forall K s R, NoDup R ->
